@@ -32,6 +32,7 @@ import (
 	"os"
 	"os/exec"
 	"path/filepath"
+	"regexp"
 	"runtime"
 	"sort"
 	"strconv"
@@ -106,7 +107,7 @@ func imageUnits(group string, kinds []kind, n int) []unit {
 					ops = append(ops, tickCode)
 				}
 			}
-			us = append(us, unit{Phase: 2, Group: group, Ops: ops, Cost: float64(bytesEst) * 5 * 60e-6})
+			us = append(us, unit{Phase: 2, Group: group, Ops: ops, Cost: float64(bytesEst) * 5 * 120e-6})
 		}
 		i := n - 1
 		for i >= 0 {
@@ -129,7 +130,7 @@ func scripted(group string, bytesEst int, ops ...int) []unit {
 	n := bytesEst/4000 + 1
 	var us []unit
 	for i := 0; i < n; i++ {
-		us = append(us, unit{Phase: 2, Group: group, Ops: ops, Slice: i, Slices: n, Cost: float64(bytesEst) / float64(n) * 5 * 500e-6})
+		us = append(us, unit{Phase: 2, Group: group, Ops: ops, Slice: i, Slices: n, Cost: float64(bytesEst) / float64(n) * 5 * 250e-6})
 	}
 	return us
 }
@@ -140,24 +141,24 @@ func sy(k kind) int { return 2*int(k) + 1 }
 func buildUnits(r *vk.Run) []unit {
 	var us []unit
 	small := []kind{kVotePeer, kVoteOwn, kPropPeer, kPartSmall, kTimeout, kStep, kEndHeight}
-	few := []kind{kVotePeer, kTimeout, kEndHeight}
+	four := []kind{kVotePeer, kPartSmall, kTimeout, kEndHeight}
 	five := []kind{kVotePeer, kPartSmall, kTimeout, kStep, kEndHeight}
 	if *partFlag == "all" || *partFlag == "histories" {
 		if r.Quick() {
-			us = append(us, historyUnits("full", 4, 1.2e-3)...)
-			us = append(us, historyUnits("core", 5, 1.2e-3)...)
-			us = append(us, historyUnits("oversize", 3, 8e-3)...)
+			us = append(us, historyUnits("full", 4, 2e-3)...)
+			us = append(us, historyUnits("core", 5, 2e-3)...)
+			us = append(us, historyUnits("oversize", 3, 12e-3)...)
 		} else {
-			us = append(us, historyUnits("full", 5, 1.2e-3)...)
-			us = append(us, historyUnits("core", 7, 1.2e-3)...)
-			us = append(us, historyUnits("oversize", 4, 8e-3)...)
+			us = append(us, historyUnits("full", 5, 2e-3)...)
+			us = append(us, historyUnits("core", 7, 2e-3)...)
+			us = append(us, historyUnits("oversize", 4, 12e-3)...)
 		}
 	}
 	if *partFlag == "all" || *partFlag == "damage" {
 		us = append(us, imageUnits("damage/all-kinds/1-record", small, 1)...)
 		us = append(us, imageUnits("damage/all-kinds/2-records", small, 2)...)
 		if r.Quick() {
-			us = append(us, imageUnits("damage/3-kinds/3-records", few, 3)...)
+			us = append(us, imageUnits("damage/4-kinds/3-records", four, 3)...)
 		} else {
 			us = append(us, imageUnits("damage/all-kinds/3-records", small, 3)...)
 			us = append(us, imageUnits("damage/5-kinds/4-records", five, 4)...)
@@ -289,6 +290,9 @@ func runBatch(ctx context.Context, self string, batch []unit, a *agg, byID map[i
 		// watchdog: the violation line was already merged
 	case strings.Contains(se, "HARNESS-ERROR"):
 		a.harnErr = se
+	case (strings.Contains(se, "out of memory") || strings.Contains(se, "cannot allocate memory")) && !hugeAlloc(se):
+		// the worker ran out of memory on an ordinary allocation: a harness problem, not a verdict
+		a.harnErr = "worker out of memory: " + firstLines(se, 3)
 	case strings.Contains(se, "out of memory") || strings.Contains(se, "cannot allocate memory"):
 		u := byID[current]
 		a.deaths = append(a.deaths, "out of memory")
@@ -302,6 +306,19 @@ func runBatch(ctx context.Context, self string, batch []unit, a *agg, byID map[i
 	default:
 		a.harnErr = fmt.Sprintf("worker exited with %v: %s", werr, se)
 	}
+}
+
+var allocRe = regexp.MustCompile(`cannot allocate (\d+)-byte block`)
+
+// hugeAlloc: the runtime died on a single allocation far beyond anything the harness itself allocates, i.e. the
+// code under test sized a buffer from damaged input.
+func hugeAlloc(stderr string) bool {
+	m := allocRe.FindStringSubmatch(stderr)
+	if m == nil {
+		return false
+	}
+	n, _ := strconv.ParseInt(m[1], 10, 64)
+	return n > 64<<20
 }
 
 func firstLines(s string, n int) string {
@@ -365,7 +382,8 @@ func main() {
 		byID[u.ID] = u
 	}
 	// batches in unit order (simplest first), each a few seconds of work
-	target := float64(r.Pick(4, 15))
+	// (short-lived workers: every opened group leaves a goroutine and some memory behind)
+	target := 4.0
 	var batches [][]unit
 	var cur []unit
 	cc := 0.0
@@ -480,7 +498,11 @@ func main() {
 	sort.Strings(keys)
 	for _, k := range keys {
 		v := a.viols[k]
-		for i := 0; i < v.Count; i++ {
+		n := v.Count
+		if n < 1 {
+			n = 1 // announced by a worker that died before it could report counts
+		}
+		for i := 0; i < n; i++ {
 			r.Violation(v.Key, v.What, v.Replay)
 		}
 	}
